@@ -2,7 +2,7 @@
 C11 — property theorems (model: Model/Convert.lean + regenerated Gen/ConvertXml.lean, Gen/ConvertCtl.lean;
 spec: Spec/Xml.lean).
 -/
-import PdfVerif.Lemmas.XmlLex
+import PdfVerif.Lemmas.XmlDoc
 
 namespace PdfVerif.Props.C11
 open PdfVerif PdfVerif.Convert PdfVerif.Xml
@@ -135,15 +135,51 @@ theorem strip_legal (s : Str) (hs : ∀ c ∈ s, isXmlChar c = true ∨ c.toNat 
 example : unescape true (attr true ['a', '"', '<', '\x01', '\t', '&', '\'']) = some ['a', '"', '<', '\t', '&', '\''] := by
   decide
 
-/-! ## XML: token level (partial)
+/-! ## XML output is well-formed and is the hierarchy
 
-`C11_xml_lex_partial`: for EVERY sequence of well-formed tokens (tag + following character data) the
-reader's lexer gives back exactly that sequence from its rendering.  Together with `esc_unesc_attr` /
-`esc_unesc_text` (attribute values and character data read back as the tree's strings and cannot end a
-token early) this is the token-level half of `C11_xml_wf`; what is not yet proved in Lean is the
-assembly over the whole hierarchy (see docs/C11.md) - every generated tree is checked against it by the
-driver ops `xmlcheck` (model output) and `parse` (implementation output). -/
-theorem C11_xml_lex_partial (ts : List Tok) (h : ∀ t ∈ ts, TokOk t) :
+Domain (`PageOk strip p`, decidable per tree and checked by the harness on every generated tree): every
+document-controlled string (font name, XObject name, glyph text) consists, after the optional CONTROL
+stripping, of XML 1.0 `Char`s (`Legal (maybeStrip strip s)`; by `strip_legal` this holds with
+strip_control for every string of XML characters and C0 controls); every formatted number / fixed name
+(bbox, size, colour, ids) is `Plain` (XML characters other than `& < "` TAB LF CR), LTAnno text is
+`TextPlain` (XML characters other than `& <` CR; pdfminer only creates " " and LF); the codec
+name written into the declaration contains no `?`. -/
+
+/-- The reader's lexer inverts the rendering of EVERY well-formed token sequence. -/
+theorem C11_xml_lex (ts : List Tok) (h : ∀ t ∈ ts, TokOk t) :
     lexRaw (ts.flatMap renderTok) = some ts := lex_render ts h
+
+/-- **Well-formed and faithful.** For every list of pages in the domain, every strip_control choice and
+every declared codec: the characters `XMLConverter` writes (header, one `receive_layout` per page, footer -
+built from the templates regenerated from converter.py) are accepted by the XML 1.0 reader, and what it
+reads is exactly the skeleton of the hierarchy: the same elements in the same nesting and order, with the
+tree's bounding boxes, fonts, sizes, colours, ids, names and character data (unescaped) as attribute
+values / character data. -/
+theorem C11_xml_wf (strip : Bool) (codec : Option Str) (ps : List Page) (hc : CodecNameOk codec)
+    (h : ∀ p ∈ ps, PageOk strip p) :
+    parseXML (sinkText (xmlDocWrites strip codec ps)) = some (docSkeleton strip ps) :=
+  parseXML_doc strip codec ps hc h
+
+/-- non-vacuity: a page with a figure whose name needs every kind of escape, a glyph whose font name and
+text contain control characters (strip_control on), a vertical text box and a layout group -/
+def demoPage : Page := ⟨['1'], ['0', ',', '0'], ['0'],
+  [.figure ['a', '"', '<', '&', '\t', '\x01'] ['1'] [.image ['2'] ['3']],
+   .textbox ['0'] ['4'] true [.textline ['5'] [.char ['F', '\x0b', '\''] ['6'] ['G'] ['N'] ['7'] ['<', '\r', '\x00'],
+                                             .anno ['\n']]],
+   .curve ['0'] ['8'] ['9']],
+  some [.group ['1'] [.box ['0'] ['4']]]⟩
+
+example : parseXML (sinkText (xmlDocWrites true (some ['u', 't', 'f', '-', '8']) [demoPage]))
+    = some (docSkeleton true [demoPage]) := by
+  apply C11_xml_wf
+  · intro c hc; revert c; decide
+  · intro p hp
+    simp only [List.mem_singleton] at hp
+    subst hp
+    simp only [PageOk, demoPage, ItemOk, ItemsOk, GroupsOk, GroupOk, Plain, Legal, TextPlain]
+    decide
+
+/-- the escapes matter: the same figure name written raw (the pinned behaviour) is rejected by the reader -/
+example : parseXML (['<', 'f', ' ', 'n', '=', '"'] ++ ['a', '"', '<'] ++ ['"', '/', '>']) = none := by decide
 
 end PdfVerif.Props.C11
